@@ -1407,7 +1407,10 @@ class HeteroscedasticReLUConditional(HeteroscedasticConditional):
         w = W_i[None,1:]
         p_h = p_x.get_density_of_linear_sum(w[None], w0[None])
         tp_h = truncated_measure.TruncatedGaussianMeasure(measure=p_h, lower_limit=0., upper_limit=jnp.inf)
-        omega_dagger = tp_h.integrate('x')[:,0]
+        # tangent point of ln(1 + h) on h >= 0: the mean of h GIVEN h >= 0 (the maximiser of the bound in k_func);
+        # where P(h >= 0) underflows to zero the unit does not contribute and any tangent point is as good
+        Zh = tp_h.integral()
+        omega_dagger = jnp.where(Zh > 0., tp_h.integrate('x')[:,0] / jnp.where(Zh > 0., Zh, 1.), 0.)
         return omega_dagger
     
     def _update_omega_star(self, p_x: pdf.GaussianPDF, y: Float[Array, "N Dy"], W_i: Float[Array, "Dx+1"], a_i: Float[Array, "Dy"], omega_star: Float[Array, "N"]) -> Float[Array, "N"]:      
